@@ -5,6 +5,7 @@
 -/
 import RdfModel.Props.C03
 import RdfModel.Props.C03Tables
+import RdfModel.Props.C04Facts
 open RdfModel RdfModel.C03 RdfModel.C04
 
 #print axioms RdfModel.C03.shape_of_result
@@ -21,6 +22,7 @@ open RdfModel RdfModel.C03 RdfModel.C04
 #print axioms RdfModel.C03.canon_invariant_simple
 #print axioms RdfModel.C03.limit_never_wrong
 #print axioms RdfModel.C03.gen_nquads_label
+#print axioms RdfModel.C04.facts_loop_control
 #print axioms RdfModel.C03.Witness.wf1
 #print axioms RdfModel.C03.Witness.two_allDistinct
 
